@@ -448,8 +448,8 @@ def ObsEq (t t' : Tok E) : Prop :=
 
 /-- the offsets the position loop visits lie below the lattice size once the input is prepared
 (`mod_c2b` has one entry per character plus the sentinel) -/
-def OffsetsInRange (P : Payload E) (t : Tok E) (text : List E) : Prop :=
-  ∀ i, Input.prepare P (t.resetWith text).input = (i, .ok) → i.modC2b.length - 1 ≤ i.modChars.length
+def OffsetsInRange (v : ResetVariant) (P : Payload E) (t : Tok E) (text : List E) : Prop :=
+  ∀ i, Input.prepare P (t.resetWith v text).input = (i, .ok) → i.modC2b.length - 1 ≤ i.modChars.length
 
 theorem doTokenize_congr (P : Payload E) (u u' : Tok E)
     (hin : u.input.editView = u'.input.editView) (hoov : u.oov = u'.oov) (hids : u.topPathIds = u'.topPathIds)
@@ -493,19 +493,37 @@ theorem doTokenize_congr (P : Payload E) (u u' : Tok E)
         · rw [r5, r6]; exact heq.subset
         · rw [r7, r8]; exact heq.mode
 
-theorem analyse_congr (P : Payload E) (t t' : Tok E) (text : List E)
+/-- `reset` makes the path field of two tokenizers equal: always for the repaired `reset`, and for the
+`reset` as it was when the path is present in both or absent in both -/
+theorem resetPath_congr (v : ResetVariant) (p p' : Option (List E)) (h : v = .cur → p.isSome = p'.isSome) :
+    resetPath v p = resetPath v p' := by
+  cases v with
+  | fix => rfl
+  | cur =>
+    have h := h rfl
+    show p.map _ = p'.map _
+    cases p <;> cases p' <;> simp_all
+
+/-- the variant only matters for the path field -/
+theorem Tok.resetWith_input (v v' : ResetVariant) (t : Tok E) (text : List E) :
+    (t.resetWith v text).input = (t.resetWith v' text).input := rfl
+
+theorem OffsetsInRange.variant {v : ResetVariant} {P : Payload E} {t : Tok E} {text : List E}
+    (h : OffsetsInRange v P t text) (v' : ResetVariant) : OffsetsInRange v' P t text := h
+
+/-- the hypothesis on the path is only needed for the `reset` as it was (`v = .cur`) -/
+theorem analyse_congr (v : ResetVariant) (P : Payload E) (t t' : Tok E) (text : List E)
     (hrep : t.input.replaces = t'.input.replaces) (hids : t.topPathIds = t'.topPathIds)
-    (hpath : t.topPath.isSome = t'.topPath.isSome) (hs : t.subset = t'.subset) (hm : t.mode = t'.mode)
-    (hlen : OffsetsInRange P t text) :
-    (t.analyse P text).2 = (t'.analyse P text).2 ∧
-    ((t.analyse P text).2 = .ok → ObsEq (t.analyse P text).1 (t'.analyse P text).1) := by
+    (hpath : v = .cur → t.topPath.isSome = t'.topPath.isSome) (hs : t.subset = t'.subset) (hm : t.mode = t'.mode)
+    (hlen : OffsetsInRange v P t text) :
+    (t.analyse v P text).2 = (t'.analyse v P text).2 ∧
+    ((t.analyse v P text).2 = .ok → ObsEq (t.analyse v P text).1 (t'.analyse v P text).1) := by
   unfold Tok.analyse
   apply doTokenize_congr
   · simp [Tok.resetWith, Input.reset, Input.editView, hrep]
   · rfl
   · exact hids
-  · show t.topPath.map _ = t'.topPath.map _
-    cases h1 : t.topPath <;> cases h2 : t'.topPath <;> simp_all
+  · exact resetPath_congr v _ _ hpath
   · exact hs
   · exact hm
   · exact hlen
@@ -622,11 +640,12 @@ theorem resolve_fields (P : Payload E) (t : Tok E) :
   · split <;> simp
 
 /-- every analysis, successful or failing at any exit, re-establishes the invariant -/
-theorem analyse_inv (P : Payload E) (t : Tok E) (text : List E) (h : Inv t) : Inv (t.analyse P text).1 := by
+theorem analyse_inv (v : ResetVariant) (P : Payload E) (t : Tok E) (text : List E) (h : Inv t) :
+    Inv (t.analyse v P text).1 := by
   obtain ⟨hids, hrep⟩ := h
-  have hp := Input.prepare_replaces P (t.resetWith text).input (by simp [Tok.resetWith, Input.reset, hrep])
+  have hp := Input.prepare_replaces P (t.resetWith v text).input (by simp [Tok.resetWith, Input.reset, hrep])
   unfold Tok.analyse Tok.doTokenize
-  rcases h1 : Input.prepare P (t.resetWith text).input with ⟨i, o⟩
+  rcases h1 : Input.prepare P (t.resetWith v text).input with ⟨i, o⟩
   rw [h1] at hp
   simp only at hp
   cases o with
@@ -636,8 +655,8 @@ theorem analyse_inv (P : Payload E) (t : Tok E) (text : List E) (h : Inv t) : In
     simp only
     split
     · exact ⟨hids, hp⟩
-    · have hb := buildLattice_fields P { t.resetWith text with input := i }
-      rcases h2 : Tok.buildLattice P { t.resetWith text with input := i } with ⟨v, o⟩
+    · have hb := buildLattice_fields P { t.resetWith v text with input := i }
+      rcases h2 : Tok.buildLattice P { t.resetWith v text with input := i } with ⟨u, o⟩
       rw [h2] at hb
       obtain ⟨b1, b2, -, -⟩ := hb
       simp only at b1 b2
@@ -645,17 +664,18 @@ theorem analyse_inv (P : Payload E) (t : Tok E) (text : List E) (h : Inv t) : In
       | err e => exact ⟨by rw [b1]; exact hids, by rw [b2]; exact hp⟩
       | panic => exact ⟨by rw [b1]; exact hids, by rw [b2]; exact hp⟩
       | ok =>
-        have hr := resolve_fields P v
+        have hr := resolve_fields P u
         exact ⟨hr.1, by rw [hr.2.1, b2]; exact hp⟩
 
-/-- `TooLong` and `Disconnect` are raised before the result path is taken: it stays `Some` -/
-theorem analyse_err_keeps_path (P : Payload E) (t : Tok E) (text : List E) (e : Err) (he : e ≠ .other)
-    (h : (t.analyse P text).2 = .err e) : (t.analyse P text).1.topPath.isSome = t.topPath.isSome := by
-  have h0 : (t.resetWith text).topPath.isSome = t.topPath.isSome := by
-    simp [Tok.resetWith]
+/-- `TooLong` and `Disconnect` are raised before the result path is taken: the path field is still what
+`reset` left -/
+theorem analyse_err_keeps_path (v : ResetVariant) (P : Payload E) (t : Tok E) (text : List E) (e : Err) (he : e ≠ .other)
+    (h : (t.analyse v P text).2 = .err e) :
+    (t.analyse v P text).1.topPath = resetPath v t.topPath := by
+  have h0 : (t.resetWith v text).topPath = resetPath v t.topPath := rfl
   revert h
   unfold Tok.analyse Tok.doTokenize
-  rcases h1 : Input.prepare P (t.resetWith text).input with ⟨i, o⟩
+  rcases h1 : Input.prepare P (t.resetWith v text).input with ⟨i, o⟩
   cases o with
   | err e' => intro _; exact h0
   | panic => intro _; exact h0
@@ -665,8 +685,8 @@ theorem analyse_err_keeps_path (P : Payload E) (t : Tok E) (text : List E) (e : 
     · simp only [hemp, if_true]
       intro h; cases h
     · simp only [hemp, Bool.false_eq_true, if_false]
-      have hb := buildLattice_fields P { t.resetWith text with input := i }
-      rcases h2 : Tok.buildLattice P { t.resetWith text with input := i } with ⟨v, o⟩
+      have hb := buildLattice_fields P { t.resetWith v text with input := i }
+      rcases h2 : Tok.buildLattice P { t.resetWith v text with input := i } with ⟨u, o⟩
       rw [h2] at hb
       obtain ⟨-, -, b3, -⟩ := hb
       simp only at b3
@@ -676,11 +696,232 @@ theorem analyse_err_keeps_path (P : Payload E) (t : Tok E) (text : List E) (e : 
       | ok =>
         simp only
         intro h
-        have hr := (resolve_fields P v).2.2
+        have hr := (resolve_fields P u).2.2
         rw [h] at hr
         rcases hr with hr | hr | hr
         · cases hr
         · cases hr; exact absurd rfl he
         · cases hr
+
+theorem resetPath_isSome (v : ResetVariant) (p : Option (List E)) (h : p.isSome = true) :
+    (resetPath v p).isSome = true := by
+  cases v with
+  | fix => rfl
+  | cur => cases p <;> simp_all [resetPath]
+
+/-! ## the repaired `reset`: an analysis that returns Ok always leaves a result path -/
+
+theorem resolve_ok_path (P : Payload E) (t : Tok E) (h : (Tok.resolveAndRewrite P t).2 = .ok) :
+    (Tok.resolveAndRewrite P t).1.topPath.isSome = true := by
+  revert h
+  unfold Tok.resolveAndRewrite
+  dsimp only
+  split
+  · intro h; cases h
+  · intro h; cases h
+  · split
+    · intro h; cases h
+    · intro h; cases h
+    · intro _; rfl
+
+/-- whenever `reset` leaves a path (always for the repaired `reset`), an Ok analysis ends with a path:
+the early return for an empty normalised text keeps the one `reset` made, every other Ok exit stores one -/
+theorem analyse_ok_path (v : ResetVariant) (P : Payload E) (t : Tok E) (text : List E)
+    (hreset : (resetPath v t.topPath).isSome = true) (h : (t.analyse v P text).2 = .ok) :
+    (t.analyse v P text).1.topPath.isSome = true := by
+  have h0 : (t.resetWith v text).topPath.isSome = true := hreset
+  revert h
+  unfold Tok.analyse Tok.doTokenize
+  rcases h1 : Input.prepare P (t.resetWith v text).input with ⟨i, o⟩
+  cases o with
+  | err e' => intro h; cases h
+  | panic => intro h; cases h
+  | ok =>
+    simp only
+    by_cases hemp : i.modified.isEmpty = true
+    · simp only [hemp, if_true]
+      intro _; exact h0
+    · simp only [hemp, Bool.false_eq_true, if_false]
+      rcases h2 : Tok.buildLattice P { t.resetWith v text with input := i } with ⟨u, o⟩
+      cases o with
+      | err e' => intro h; cases h
+      | panic => intro h; cases h
+      | ok => simp only; exact resolve_ok_path P u
+
+/-! ## whole histories: the invariant of the shared buffers is kept by every operation -/
+
+/-- world invariant: the tokenizer satisfies `Inv` and every `InputPart` a list may swap into the tokenizer
+has an empty `replaces` buffer -/
+def WInv (w : World E) : Prop := Inv w.tok ∧ ∀ p ∈ w.parts, p.input.replaces = []
+
+theorem mem_set_cases {α : Type} (l : List α) (k : Nat) (a x : α) (h : x ∈ l.set k a) : x = a ∨ x ∈ l := by
+  induction l generalizing k with
+  | nil => simp at h
+  | cons b bs ih =>
+    cases k with
+    | zero =>
+      simp only [List.set_cons_zero, List.mem_cons] at h
+      rcases h with h | h
+      · exact Or.inl h
+      · exact Or.inr (List.mem_cons_of_mem _ h)
+    | succ k =>
+      simp only [List.set_cons_succ, List.mem_cons] at h
+      rcases h with h | h
+      · exact Or.inr (by simp [h])
+      · rcases ih k h with h | h
+        · exact Or.inl h
+        · exact Or.inr (List.mem_cons_of_mem _ h)
+
+theorem mem_of_getElem?_some {α : Type} (l : List α) (k : Nat) (a : α) (h : l[k]? = some a) : a ∈ l :=
+  List.mem_of_getElem? h
+
+theorem WInv.init (m : Mode) : WInv (World.init (E := E) m) :=
+  ⟨⟨rfl, rfl⟩, by intro p hp; cases hp⟩
+
+theorem Input.reset_replaces (i : Input E) : i.reset.replaces = i.replaces := rfl
+
+theorem collect_inv (w : World E) (j : Nat) (h : WInv w) : WInv (w.collect j).1 := by
+  obtain ⟨⟨hids, hrep⟩, hparts⟩ := h
+  unfold World.collect
+  cases hL : w.lists[j]? with
+  | none => exact ⟨⟨hids, hrep⟩, hparts⟩
+  | some L =>
+    simp only
+    cases hp : w.parts[L.part]? with
+    | none => exact ⟨⟨hids, hrep⟩, hparts⟩
+    | some p =>
+      have hpin : p.input.replaces = [] := hparts p (mem_of_getElem?_some _ _ _ hp)
+      simp only
+      cases ht : w.tok.topPath with
+      | none =>
+        refine ⟨⟨hids, hpin⟩, ?_⟩
+        intro q hq
+        rcases mem_set_cases _ _ _ _ hq with hq | hq
+        · rw [hq]; exact hrep
+        · exact hparts q hq
+      | some path =>
+        refine ⟨⟨hids, hpin⟩, ?_⟩
+        intro q hq
+        rcases mem_set_cases _ _ _ _ hq with hq | hq
+        · rw [hq]; exact hrep
+        · exact hparts q hq
+
+theorem splitInto_inv (P : Payload E) (w : World E) (i idx : Nat) (m : Mode) (j : Nat) (h : WInv w) :
+    WInv (w.splitInto P i idx m j).1 := by
+  unfold World.splitInto
+  split
+  · exact h
+  · split
+    · split
+      · dsimp only
+        split
+        · exact h
+        · exact h
+      · exact h
+      · exact h
+    · exact h
+
+theorem lookup_inv (P : Payload E) (w : World E) (j : Nat) (q : List E) (s : Subset) (h : WInv w) :
+    WInv (w.lookup P j q s).1 := by
+  obtain ⟨htok, hparts⟩ := h
+  unfold World.lookup
+  cases hL : w.lists[j]? with
+  | none => exact ⟨htok, hparts⟩
+  | some L =>
+    simp only
+    cases hp : w.parts[L.part]? with
+    | none => exact ⟨htok, hparts⟩
+    | some p =>
+      have hpin : p.input.replaces = [] := hparts p (mem_of_getElem?_some _ _ _ hp)
+      have h0 : ({ p.input.reset with original := p.input.reset.original ++ q } : Input E).replaces = [] := hpin
+      have h1 := Input.startBuild_replaces P { p.input.reset with original := p.input.reset.original ++ q }
+      simp only
+      rcases hs : Input.startBuild P { p.input.reset with original := p.input.reset.original ++ q } with ⟨i1, o1⟩
+      rw [hs] at h1
+      simp only at h1
+      have hi1 : i1.replaces = [] := by rw [h1]; exact h0
+      have setInv : ∀ i' : Input E, i'.replaces = [] →
+          ∀ x ∈ w.parts.set L.part { p with input := i' }, x.input.replaces = [] := by
+        intro i' hi' x hx
+        rcases mem_set_cases _ _ _ _ hx with hx | hx
+        · rw [hx]; exact hi'
+        · exact hparts x hx
+      cases o1 with
+      | err e => exact ⟨htok, setInv i1 hi1⟩
+      | panic => exact ⟨htok, setInv i1 hi1⟩
+      | ok =>
+        simp only
+        have h2 := Input.build_replaces P i1
+        rcases hb : Input.build P i1 with ⟨i2, o2⟩
+        rw [hb] at h2
+        simp only at h2
+        have hi2 : i2.replaces = [] := by rw [h2]; exact hi1
+        cases o2 with
+        | err e => exact ⟨htok, setInv i2 hi2⟩
+        | panic => exact ⟨htok, setInv i2 hi2⟩
+        | ok => exact ⟨htok, setInv i2 hi2⟩
+
+/-- every operation of the API keeps the world invariant, whatever its outcome -/
+theorem step_inv (v : ResetVariant) (P : Payload E) (w : World E) (op : Op E) (h : WInv w) :
+    WInv (w.step v P op).1 := by
+  cases op with
+  | setMode m => exact h
+  | setSubset s => exact h
+  | analyse text => exact ⟨analyse_inv v P w.tok text h.1, h.2⟩
+  | collect j => exact collect_inv w j h
+  | newList =>
+    refine ⟨h.1, ?_⟩
+    intro p hp
+    rcases List.mem_append.mp hp with hp | hp
+    · exact h.2 p hp
+    · have : p = Part.default P := by simpa using hp
+      rw [this]
+      show (Input.startBuild P Input.empty).1.replaces = []
+      rw [Input.startBuild_replaces]; rfl
+  | emptyClone j =>
+    show WInv (match w.lists[j]? with | none => (w, Outcome.ok) | some L => _).1
+    cases w.lists[j]? <;> exact h
+  | clear j =>
+    show WInv (match w.lists[j]? with | none => (w, Outcome.ok) | some L => _).1
+    cases w.lists[j]? <;> exact h
+  | splitInto i idx m j => exact splitInto_inv P w i idx m j h
+  | lookup j q => exact lookup_inv P w j q Subset.all h
+
+/-- induction over whole histories -/
+theorem run_inv (v : ResetVariant) (ops : List (Payload E × Op E)) (w : World E) (h : WInv w) :
+    WInv (w.run v ops) := by
+  induction ops generalizing w with
+  | nil => exact h
+  | cons x rest ih =>
+    obtain ⟨P, op⟩ := x
+    exact ih _ (step_inv v P w op h)
+
+/-- mode and subset of the tokenizer are only changed by `set_mode` / `set_subset` -/
+theorem analyse_mode_subset (v : ResetVariant) (P : Payload E) (t : Tok E) (text : List E) :
+    (t.analyse v P text).1.mode = t.mode ∧ (t.analyse v P text).1.subset = t.subset := by
+  unfold Tok.analyse Tok.doTokenize
+  rcases h1 : Input.prepare P (t.resetWith v text).input with ⟨i, o⟩
+  cases o with
+  | err e => exact ⟨rfl, rfl⟩
+  | panic => exact ⟨rfl, rfl⟩
+  | ok =>
+    simp only
+    split
+    · exact ⟨rfl, rfl⟩
+    · have hb : (Tok.buildLattice P { t.resetWith v text with input := i }).1.mode = t.mode ∧
+          (Tok.buildLattice P { t.resetWith v text with input := i }).1.subset = t.subset := by
+        unfold Tok.buildLattice
+        dsimp only
+        split <;> exact ⟨rfl, rfl⟩
+      rcases h2 : Tok.buildLattice P { t.resetWith v text with input := i } with ⟨u, o⟩
+      rw [h2] at hb
+      simp only at hb
+      cases o with
+      | err e => exact hb
+      | panic => exact hb
+      | ok =>
+        have hr := resolve_congr P u u ⟨rfl, rfl, rfl, rfl, rfl, rfl, rfl⟩
+        obtain ⟨-, -, -, -, r5, -, r7, -⟩ := hr
+        exact ⟨by rw [r7]; exact hb.1, by rw [r5]; exact hb.2⟩
 
 end Recycle
